@@ -362,7 +362,12 @@ def run_attr_scenario(provs, kinds, inits, pol, attach_at, res=None):
 
 IN_GROUPS = ("before_transition", "on_exit_state", "on_transition", "on_enter_state",
              "after_transition")
-IN_POINTS = ("vld", "ok") + IN_GROUPS
+# callbacks following a naming convention sort after the generic ones of their group: a listener
+# attached from inside one of them inserts its generic callback *before* the running one
+CONV_POINTS = {"before_go": "before_transition", "on_exit_a": "on_exit_state",
+               "on_go": "on_transition", "on_enter_b": "on_enter_state",
+               "after_go": "after_transition"}
+IN_POINTS = ("vld", "ok") + IN_GROUPS + tuple(CONV_POINTS)
 
 
 def in_callback_cases():
@@ -456,6 +461,8 @@ def run_in_callback(asyn, point, who, at):
         return f"after three events the state is {sm.current_state_value}, expected b"
     segs = [log[:marks[0]]] + [log[marks[i]:marks[i + 1]] for i in range(3)]
     attach_seg = {"activation": 0, "first-event": 1, "second-event": 2}[at]
+    if at == "second-event" and point in ("on_exit_a", "on_enter_b"):
+        attach_seg = 3       # these hooks only run for the events leaving a / entering b
     for si, seg in enumerate(segs):
         ev = "__initial__" if si == 0 else "go"
         own = ("sm", "P") if who == "machine" else ("sm",)
@@ -463,6 +470,13 @@ def run_in_callback(asyn, point, who, at):
         want_m = ["on_enter_state"] if si == 0 else list(IN_GROUPS)
         if machine_groups != want_m:
             return f"event {si} ({ev}): the machine's own callbacks ran as {machine_groups}"
+        # the attaching callback itself runs exactly once where it applies
+        n_p = sum(1 for (l_, _g, _e) in seg if l_ == "P")
+        applies = (si > 0 and (point not in ("on_exit_a", "on_enter_b") or si in (1, 3))) or \
+            (si == 0 and point == "on_enter_state")
+        if n_p != (1 if applies else 0):
+            return (f"event {si} ({ev}): the callback `{point}` that attaches the listener ran "
+                    f"{n_p} time(s), expected {1 if applies else 0}")
         got_b = [g for (l_, g, _e) in seg if l_ == "B"]
         if si < attach_seg:
             want_lo = want_hi = []
@@ -470,12 +484,13 @@ def run_in_callback(asyn, point, who, at):
             want_lo = want_hi = list(IN_GROUPS)
         else:
             order = ["vld", "ok"] + list(IN_GROUPS)
-            k = order.index(point)
+            k = order.index(CONV_POINTS.get(point, point))
             later = [g for g in order[k + 1:] if g in IN_GROUPS]
             if si == 0:
                 later = []
             want_lo = later
-            want_hi = ([point] if point in IN_GROUPS else []) + later
+            grp = CONV_POINTS.get(point, point)
+            want_hi = ([grp] if grp in IN_GROUPS else []) + later
         if got_b not in (want_lo, want_hi):
             return (f"event {si} ({ev}): the listener attached inside `{point}` received "
                     f"{got_b}, expected {want_lo}" +
